@@ -17,7 +17,7 @@ ID = "C08"
 META = {
     "engine": "smallscope",
     "technique": "exhaustive enumeration of objective x constraint histories x options; full truth tables of the penalised model and its four reduced forms; every arg-min converted by the real convert_solution and compared with the reference constrained optimum",
-    "text": "For every objective from the objective set and every ordered constraint history (length 1-2 quick / 1-3 thorough for PCBO over a menu of 19 comparison + 4 logical constraints; "
+    "text": "For every objective from the objective set and every ordered constraint history (length 1-2 quick / 1-3 thorough for PCBO over a menu of 21 comparison + 4 logical constraints; "
             "length 1 quick / 1-2 thorough for PCSO), log_trick both ways and two admissible weights: solve_bruteforce() is feasible-optimal; for H itself and for to_pubo/to_puso/to_qubo/to_quso the "
             "table over all labels has minimum F* and EVERY arg-min (grouped by projection on the model labels) converts to a feasible optimal assignment accepted by is_solution_valid; arg-mins "
             "restricted to the form's own variables (what a solver returns) must convert too; remove_ancilla_from_solution is the non-ancilla restriction.",
@@ -301,7 +301,7 @@ def check(case, st):
 def run(ctx):
     ctx.bounds = {"model_variables": N, "max_labels_per_form": MAXL,
                   "objectives": {"PCBO": len(objectives(ctx.tier, False)), "PCSO": len(objectives(ctx.tier, True))},
-                  "menu": {"PCBO": "19 comparison (C02 menu) + %s" % [l[0] for l in LOGICAL], "PCSO": "14 comparison (C03 menu)"},
+                  "menu": {"PCBO": "21 comparison (C02 menu) + %s" % [l[0] for l in LOGICAL], "PCSO": "15 comparison (C03 menu)"},
                   "history_length": {"PCBO": "1 for all objectives, 2 for the two-term and four one-term objectives" if ctx.quick else "1-2 for all objectives, 3 for one-term objectives", "PCSO": "1 (2 for three one-term objectives)" if ctx.quick else "1-2"},
                   "weights": "(max f - min f) + 1 and + 0.5", "log_trick": [True, False],
                   "labels": "ascending strings for PCBO with log_trick=True, descending strings (keys written in unsorted order) for PCBO with log_trick=False and all PCSO cases"}
